@@ -532,7 +532,10 @@ func (s *Sched) quiescent() {
 			s.Blocked = append(s.Blocked, fmt.Sprintf("T%d(%s) blocked at %s", x.ID, x.Name, x.pend.Kind))
 		}
 	}
-	s.Deadlock = len(s.Blocked) > 0
+	// goroutines the code under test started itself and left parked for good (a server goroutine waiting
+	// for its next request, a worker pool) after every thread of the scenario has finished are a leak at
+	// worst, not a deadlock: nobody is waiting for them. They stay listed in Blocked.
+	s.Deadlock = len(s.Blocked) > 0 && !s.harnessDone()
 	s.finish()
 }
 
